@@ -412,6 +412,122 @@ mut("C16", "control-pbs-single-task-keeps-array", CROP,
     "    if (scheduler == \"pbs\") and len(opts[\"batch_ids\"]) == 0:\n",
     "CONTROL (must stay quiet): a one-task PBS array header '#PBS -J 1-1' is kept; the stub scheduler runs it fine")
 
+# ---------------------------------------------------------------- more controls
+# behaviour-preserving re-implementations: the checks must stay quiet on them
+mut("C01", "control-collect-with-comprehension", COMBO,
+    """        results_linear = []
+        for kws, future in zip(settings, futures):
+            if verbosity >= 2:
+                pbar.set_description(str(kws))
+            results_linear.append(_get_result(future))
+            pbar.update()
+        return results_linear
+""",
+    """        results_linear = [_get_result(future) for future in futures]
+        pbar.update(len(results_linear))
+        return results_linear
+""", "CONTROL (must stay quiet): same order, collected with a comprehension")
+mut("C04", "control-reaper-reads-eagerly", CROP,
+    """        self.results = itertools.chain.from_iterable(
+            map(wait_to_load if wait else _load, files)
+        )
+""",
+    """        if wait:
+            self.results = itertools.chain.from_iterable(map(wait_to_load, files))
+        else:
+            self.results = iter([r for x in files for r in _load(x)])
+""", "CONTROL (must stay quiet): without wait all results are read up front")
+mut("C08", "control-check_bad-loads-result-first", CROP,
+    """            batch = read_from_disk(batch_file)
+
+            try:
+                result = read_from_disk(result_file)
+                unloadable = False
+            except Exception as e:
+                unloadable = True
+                err = e
+""",
+    """            try:
+                result = read_from_disk(result_file)
+                unloadable = False
+            except Exception as e:
+                unloadable = True
+                err = e
+
+            batch = read_from_disk(batch_file)
+""", "CONTROL (must stay quiet): order of the two reads swapped")
+mut("C11", "control-progress-by-listdir-fullmatch", CROP,
+    """            self._num_results = len(
+                glob.glob(
+                    os.path.join(self.location, "results", RSLT_NM.format("*"))
+                )
+            )
+""",
+    """            rgx = re.compile(RSLT_NM.format(r"\\d+").replace(".", r"\\."))
+            try:
+                names = os.listdir(os.path.join(self.location, "results"))
+            except FileNotFoundError:
+                names = []
+            self._num_results = sum(1 for nm in names if rgx.fullmatch(nm))
+""", "CONTROL (must stay quiet): the correct version of seeded change S-C11-2")
+mut("C10", "control-delete_all-renames-first", CROP,
+    "        shutil.rmtree(self.location)\n",
+    "        trash = \"{}.deleting-{}\".format(self.location, uuid.uuid4().hex)\n        os.rename(self.location, trash)\n        shutil.rmtree(trash)\n",
+    "CONTROL (must stay quiet): the crop disappears atomically, then its files are removed")
+mut("C12", "control-delete_all-renames-first", CROP,
+    "        shutil.rmtree(self.location)\n",
+    "        trash = \"{}.deleting-{}\".format(self.location, uuid.uuid4().hex)\n        os.rename(self.location, trash)\n        shutil.rmtree(trash)\n",
+    "CONTROL (must stay quiet)")
+mut("C10", "control-sow-writes-settings-last", CROP,
+    """        self.choose_batch_settings(combos=combos, cases=cases)
+        self.prepare(combos=combos, cases=cases)
+
+        with Sower(self) as sow_fn:
+            combo_runner_core(
+                fn=sow_fn,
+                combos=combos,
+                cases=cases,
+                constants=constants,
+                shuffle=shuffle,
+                verbosity=verbosity,
+            )
+""",
+    """        self.choose_batch_settings(combos=combos, cases=cases)
+        self.ensure_dirs_exists()
+        if self.save_fn:
+            self.save_function_to_disk()
+
+        with Sower(self) as sow_fn:
+            combo_runner_core(
+                fn=sow_fn,
+                combos=combos,
+                cases=cases,
+                constants=constants,
+                shuffle=shuffle,
+                verbosity=verbosity,
+            )
+        # publish the settings last: a crop is 'prepared' only once fully sown
+        self.save_info(combos=combos, cases=cases)
+""", "CONTROL (must stay quiet): sow_combos publishes the settings file after the batches")
+mut("C05", "control-default-merge-via-xr.merge", FARM,
+    """                new_full_ds = self._full_ds.merge(
+                    new_ds, compat='no_conflicts')
+""",
+    """                new_full_ds = xr.merge(
+                    [self._full_ds, new_ds], compat='no_conflicts', join='outer')
+""", "CONTROL (must stay quiet): equivalent spelling of the default-policy merge")
+mut("C16", "control-script-has-extra-comment", CROP,
+    "    \"from xyzpy.gen.cropping import grow, Crop\\n\"\n",
+    "    \"# generated by xyzpy\\n\"\n    \"from xyzpy.gen.cropping import grow, Crop\\n\"\n",
+    "CONTROL (must stay quiet): an extra comment line in the embedded program")
+mut("C15", "control-add_df-concat-then-reset", FARM,
+    """            new_full_df = pd.concat([self._full_df, new_df],
+                                    ignore_index=True, sort=True)
+""",
+    """            new_full_df = pd.concat([self._full_df, new_df], sort=True)
+            new_full_df = new_full_df.reset_index(drop=True)
+""", "CONTROL (must stay quiet): equivalent re-indexing")
+
 
 def main():
     only = set(a.upper() for a in sys.argv[1:])
